@@ -459,7 +459,8 @@ where
 {
     #[inline(always)]
     fn write(&mut self, buf: &[u8]) -> std::io::Result<usize> {
-        let mut iter = buf.chunks_exact(WW::Word::BYTES);
+        // write_bits() accepts at most 64 bits: write 8 bytes at a time, whatever the word size
+        let mut iter = buf.chunks_exact(8);
 
         for word in &mut iter {
             self.write_bits(u64::from_be_bytes(word.try_into().unwrap()), 64)
@@ -498,7 +499,8 @@ where
 {
     #[inline(always)]
     fn write(&mut self, buf: &[u8]) -> std::io::Result<usize> {
-        let mut iter = buf.chunks_exact(WW::Word::BYTES);
+        // write_bits() accepts at most 64 bits: write 8 bytes at a time, whatever the word size
+        let mut iter = buf.chunks_exact(8);
 
         for word in &mut iter {
             self.write_bits(u64::from_le_bytes(word.try_into().unwrap()), 64)
